@@ -439,9 +439,18 @@ bool varintBitmapContains(const varintBitmap *vb, uint16_t value) {
     return false;
 }
 
+/* Add for the set operations below: varintBitmapAdd() answers false both for
+ * "already present" and for "out of memory"; only the latter is a failure. */
+static bool bitmapAddChecked_(varintBitmap *vb, uint16_t value) {
+    return varintBitmapAdd(vb, value) || varintBitmapContains(vb, value);
+}
+
 varintBitmap *varintBitmapAnd(const varintBitmap *vb1,
                               const varintBitmap *vb2) {
     varintBitmap *result = varintBitmapCreate();
+    if (!result) {
+        return NULL; /* Out of memory */
+    }
 
     /* Optimize: AND with array containers */
     if (vb1->type == VARINT_BITMAP_ARRAY && vb2->type == VARINT_BITMAP_ARRAY) {
@@ -452,7 +461,10 @@ varintBitmap *varintBitmapAnd(const varintBitmap *vb1,
             uint16_t v2 = vb2->container.array.values[j];
 
             if (v1 == v2) {
-                varintBitmapAdd(result, v1);
+                if (!bitmapAddChecked_(result, v1)) {
+                    varintBitmapFree(result);
+                    return NULL; /* Out of memory */
+                }
                 i++;
                 j++;
             } else if (v1 < v2) {
@@ -472,7 +484,10 @@ varintBitmap *varintBitmapAnd(const varintBitmap *vb1,
     varintBitmapIterator it = varintBitmapCreateIterator(smaller);
     while (varintBitmapIteratorNext(&it)) {
         if (varintBitmapContains(other, it.currentValue)) {
-            varintBitmapAdd(result, it.currentValue);
+            if (!bitmapAddChecked_(result, it.currentValue)) {
+                varintBitmapFree(result);
+                return NULL; /* Out of memory */
+            }
         }
     }
 
@@ -481,10 +496,16 @@ varintBitmap *varintBitmapAnd(const varintBitmap *vb1,
 
 varintBitmap *varintBitmapOr(const varintBitmap *vb1, const varintBitmap *vb2) {
     varintBitmap *result = varintBitmapClone(vb1);
+    if (!result) {
+        return NULL; /* Out of memory */
+    }
 
     varintBitmapIterator it = varintBitmapCreateIterator(vb2);
     while (varintBitmapIteratorNext(&it)) {
-        varintBitmapAdd(result, it.currentValue);
+        if (!bitmapAddChecked_(result, it.currentValue)) {
+            varintBitmapFree(result);
+            return NULL; /* Out of memory */
+        }
     }
 
     return result;
@@ -493,12 +514,18 @@ varintBitmap *varintBitmapOr(const varintBitmap *vb1, const varintBitmap *vb2) {
 varintBitmap *varintBitmapXor(const varintBitmap *vb1,
                               const varintBitmap *vb2) {
     varintBitmap *result = varintBitmapCreate();
+    if (!result) {
+        return NULL; /* Out of memory */
+    }
 
     /* Add elements from vb1 that are not in vb2 */
     varintBitmapIterator it1 = varintBitmapCreateIterator(vb1);
     while (varintBitmapIteratorNext(&it1)) {
         if (!varintBitmapContains(vb2, it1.currentValue)) {
-            varintBitmapAdd(result, it1.currentValue);
+            if (!bitmapAddChecked_(result, it1.currentValue)) {
+                varintBitmapFree(result);
+                return NULL; /* Out of memory */
+            }
         }
     }
 
@@ -506,7 +533,10 @@ varintBitmap *varintBitmapXor(const varintBitmap *vb1,
     varintBitmapIterator it2 = varintBitmapCreateIterator(vb2);
     while (varintBitmapIteratorNext(&it2)) {
         if (!varintBitmapContains(vb1, it2.currentValue)) {
-            varintBitmapAdd(result, it2.currentValue);
+            if (!bitmapAddChecked_(result, it2.currentValue)) {
+                varintBitmapFree(result);
+                return NULL; /* Out of memory */
+            }
         }
     }
 
@@ -516,11 +546,17 @@ varintBitmap *varintBitmapXor(const varintBitmap *vb1,
 varintBitmap *varintBitmapAndNot(const varintBitmap *vb1,
                                  const varintBitmap *vb2) {
     varintBitmap *result = varintBitmapCreate();
+    if (!result) {
+        return NULL; /* Out of memory */
+    }
 
     varintBitmapIterator it = varintBitmapCreateIterator(vb1);
     while (varintBitmapIteratorNext(&it)) {
         if (!varintBitmapContains(vb2, it.currentValue)) {
-            varintBitmapAdd(result, it.currentValue);
+            if (!bitmapAddChecked_(result, it.currentValue)) {
+                varintBitmapFree(result);
+                return NULL; /* Out of memory */
+            }
         }
     }
 
